@@ -16,7 +16,7 @@
 (* always evaluate to TRUE, so one TLC run reports every failing clause of  *)
 (* every trace (total verdicts).                                            *)
 (***************************************************************************)
-EXTENDS SimProps, Json, IOUtils, TLCExt
+EXTENDS SimProps, SimMatch, Json, IOUtils, TLCExt
 
 CONSTANT Props        \* which formula families to evaluate, e.g. {"R", "C03", "C04"}
 
@@ -123,9 +123,247 @@ P_C07(pre, e) ==
     /\ (e.ev = "pend" =>
           Ck("C07", "NoDuePackageLeft", SurvivingDue(post, e.a.mid) = {}, SurvivingDue(post, e.a.mid)))
 
+
+-----------------------------------------------------------------------------
+(* Layer R, matching engine: the logged result of every placement and of every middleware
+   pass must be the result SimMatch computes from the logged inputs (book, traded ladder). *)
+Env(e, instr) == [pkgmver |-> e.a.mver, bpe |-> e.a.bpe, fullmatch |-> e.a.fullmatch,
+                  pt |-> e.a.book.pt, instr |-> instr]
+
+EngineDiff(got, exp) ==
+    {f \in {"m", "frags", "can", "lap", "void", "piq", "mver"} : got[f] # exp[f]}
+
+PlaceConforms(pre, e) ==
+    LET post == e.st IN
+    IF e.a.kind = "PLACE"
+    THEN \A o \in SeqToSet(PkgOrders(pre, e.a.orders)) :
+           LET b == pre.ord[o] IN
+           IF ~(b.selk \in DOMAIN e.a.book.r) \/ e.a.err # "" THEN TRUE
+           ELSE IF PlaceAmbiguous(b, e.a.book.r[b.selk], Env(e, TRUE)) THEN TRUE
+           ELSE LET r == Place(b, e.a.book, e.a.book.r[b.selk], Env(e, TRUE))
+                    d == EngineDiff(post.ord[o], r) \cup (IF post.ord[o].bet # r.ok THEN {"bet"} ELSE {})
+                IN IF d = {} THEN TRUE ELSE Drift("place", <<o, d, "expected", [x \in d \ {"bet"} |-> r[x]]>>)
+    ELSE IF e.a.kind = "REPLACE"
+    THEN \A o \in {x \in SeqToSet(PkgOrders(pre, e.a.orders)) : pre.ord[x].status # "COMPLETE"} :
+           LET b == pre.ord[o]
+               c == CancelAmount(pre, o)
+           IN IF c < 0 \/ ~(b.selk \in DOMAIN e.a.book.r) \/ e.a.err # "" THEN TRUE
+              ELSE LET rl == IF Has(e.a.rlab, o) THEN e.a.rlab[o] ELSE "?"
+                       rep == NewReplacement(pre, o, rl, b.newp, c, e.a.created)
+                       r == Place(rep, e.a.book, e.a.book.r[b.selk], Env(e, FALSE))
+                   IN IF r.ok
+                      THEN IF ~Has(post.ord, rl) THEN Drift("replace", <<o, "replacement missing">>)
+                           ELSE LET d == EngineDiff(post.ord[rl], r)
+                                IN IF d = {} THEN TRUE ELSE Drift("replace", <<o, rl, d>>)
+                      ELSE IF Has(post.ord, rl) THEN Drift("replace", <<o, "replacement kept although its placement failed">>)
+                           ELSE TRUE
+    ELSE TRUE
+
+\* groups that share one working copy of the traded ladder
+MatchGroups(pre, mid, iso) ==
+    IF iso THEN {{o \in DOMAIN pre.ord : pre.ord[o].mid = mid /\ pre.ord[o].inbl /\ pre.ord[o].strat = sn
+                                          /\ pre.ord[o].status \in MatchSt} :
+                   sn \in {pre.ord[x].strat : x \in {y \in DOMAIN pre.ord : pre.ord[y].mid = mid}}}
+    ELSE {{o \in DOMAIN pre.ord : pre.ord[o].mid = mid /\ pre.ord[o].inbl /\ pre.ord[o].live
+                                   /\ pre.ord[o].status \in MatchSt}}
+
+TouchedByRemoval(pre, e, o) ==
+    e.a.newly_removed # <<>> /\
+    (\/ \E i \in DOMAIN e.a.newly_removed : e.a.newly_removed[i][1] = pre.ord[o].selk
+     \/ pre.ord[o].frags # <<>> \/ pre.ord[o].type = "MARKET_ON_CLOSE")
+
+MwConforms(pre, e) ==
+    LET post == e.st
+        mid == e.a.mid
+        tr == [sk \in DOMAIN e.a.traded |-> LadderFn(e.a.traded[sk])]
+    IN IF ~e.a.active THEN TRUE
+       ELSE \A g \in MatchGroups(pre, mid, e.a.iso) :
+              LET labs == SortOrders(pre.ord, g)
+                  res == FoldPassive(pre.ord, {}, labs, tr, e.a.book, e.a.book.pt, e.a.minbsp)
+              IN \A o \in g :
+                   IF TouchedByRemoval(pre, e, o) \/ ~(pre.ord[o].selk \in DOMAIN e.a.book.r)
+                      \/ e.a.book.r[pre.ord[o].selk].status # "ACTIVE"
+                      \/ (pre.ord[o].side = "LAY" /\ ~pre.ord[o].bspd /\ e.a.book.bsprec /\ TakesSp(pre.ord[o])
+                          /\ SpTie(pre.ord[o], e.a.book.r[pre.ord[o].selk].sp))
+                   THEN TRUE
+                   ELSE LET d == EngineDiff(post.ord[o], res[1][o])
+                                 \cup (IF post.ord[o].bspd # res[1][o].bspd THEN {"bspd"} ELSE {})
+                        IN IF d = {} THEN TRUE
+                           ELSE Drift("match", <<o, d, "expected", [x \in d |-> res[1][o][x]]>>)
+
+\* RunnerAnalytics._calculate_traded agrees with the ledger rebuilt from the raw lines
+TradedConforms(e) ==
+    \A sk \in DOMAIN e.a.rawdelta :
+       IF ~(sk \in DOMAIN e.a.traded) THEN (IF e.a.rawdelta[sk] = <<>> THEN TRUE ELSE Drift("traded", <<sk, "missing">>))
+       ELSE IF e.a.book.r[sk].status # "ACTIVE" THEN TRUE
+       ELSE IF LadderFn(e.a.traded[sk]) = LadderFn(e.a.rawdelta[sk]) THEN TRUE
+            ELSE Drift("traded", <<sk, e.a.traded[sk], e.a.rawdelta[sk]>>)
+
+-----------------------------------------------------------------------------
+(* C05 *)
+RealFrags(fr) == SelectSeq(fr, LAMBDA f : f[1] >= 0)      \* without the force-matched remainder
+P_C05(pre, e) ==
+    LET post == e.st IN
+    /\ (e.ev = "exec" /\ e.a.kind = "PLACE" /\ e.a.err = "" =>
+          \A o \in SeqToSet(PkgOrders(pre, e.a.orders)) :
+             LET b == pre.ord[o]  a == post.ord[o]
+                 nf == RealFrags(NewFrags(b.frags, a.frags))
+                 fok == b.tif = "FOK"
+             IN (b.type = "LIMIT" /\ b.selk \in DOMAIN e.a.book.r) =>
+                 /\ Ck("C05", "FillWithinLimit", FillWithinLimit(b, nf, fok), <<o, nf, b.price, b.side>>)
+                 /\ Ck("C05", "LevelNotOverdrawn", LevelNotOverdrawn(b, nf, e.a.book.r[b.selk]), <<o, nf>>)
+                 /\ (fok => Ck("C05", "FokAllOrNothing", FokAllOrNothing(b, a), <<o, a.m, a.can, Rem(a)>>))
+                 /\ ((~e.a.bpe /\ e.a.book.status = "OPEN" /\ e.a.book.r[b.selk].status = "ACTIVE"
+                      /\ ~(e.a.mver > 0 /\ e.a.mver # e.a.book.version)
+                      /\ ~(fok /\ b.minfill > b.size)) =>
+                        Ck("C05", "BpeLapse", BpeLapses(b, e.a.book.r[b.selk], a), <<o>>)))
+    /\ (e.ev = "exec" /\ e.a.kind = "REPLACE" /\ e.a.err = "" =>
+          \A o \in DOMAIN e.a.rlab :
+             LET rl == e.a.rlab[o] IN
+             (Has(post.ord, rl) /\ post.ord[rl].selk \in DOMAIN e.a.book.r) =>
+                LET a == post.ord[rl]  nf == RealFrags(a.frags) IN
+                /\ Ck("C05", "FillWithinLimit", FillWithinLimit(a, nf, FALSE), <<rl, nf>>)
+                /\ Ck("C05", "LevelNotOverdrawn", LevelNotOverdrawn(a, nf, e.a.book.r[a.selk]), <<rl, nf>>))
+    /\ (e.ev = "mw" =>
+          \A o \in DOMAIN pre.ord :
+             (pre.ord[o].type = "LIMIT" /\ Has(post.ord, o)) =>
+               LET nf == NewFrags(pre.ord[o].frags, post.ord[o].frags)
+                   sp == pre.ord[o].pers = "MARKET_ON_CLOSE" /\ post.ord[o].bspd /\ ~pre.ord[o].bspd
+               IN (Len(post.ord[o].frags) > Len(pre.ord[o].frags) /\ ~sp) =>
+                    Ck("C05", "FillWithinLimit", FillWithinLimit(pre.ord[o], nf, FALSE), <<o, nf>>))
+    \* a fill-or-kill order never rests: once its placement has been answered nothing remains
+    /\ \A o \in DOMAIN post.ord :
+          (post.ord[o].tif = "FOK" /\ post.ord[o].type = "LIMIT" /\ post.ord[o].status \in MatchSt) =>
+              Ck("C05", "FokNeverRests", Rem(post.ord[o]) = 0, <<o, post.ord[o].status>>)
+
+-----------------------------------------------------------------------------
+(* C06 *)
+SumOver(T, F(_)) ==
+    LET RECURSIVE go(_)
+        go(U) == IF U = {} THEN 0 ELSE LET x == CHOOSE y \in U : TRUE IN F(x) + go(U \ {x})
+    IN go(T)
+
+P_C06(pre, e) ==
+    e.ev = "mw" /\ e.a.active =>
+    LET post == e.st
+        mid == e.a.mid
+        delta(sk) == IF sk \in DOMAIN e.a.rawdelta THEN LadderFn(e.a.rawdelta[sk]) ELSE <<>>
+        plain(o) == \* a resting limit order matched passively in this pass (no SP, no lapse, no void)
+            /\ pre.ord[o].type = "LIMIT" /\ Has(post.ord, o)
+            /\ post.ord[o].void = pre.ord[o].void /\ post.ord[o].lap = pre.ord[o].lap
+            /\ ~(post.ord[o].bspd /\ ~pre.ord[o].bspd /\ TakesSp(pre.ord[o]))
+        fill(o) == post.ord[o].m - pre.ord[o].m
+        eligvol2(o, d) == SumOver({p \in DOMAIN d : Eligible(pre.ord[o], p)}, LAMBDA p : d[p])   \* twice the eligible volume
+    IN
+    /\ \A o \in DOMAIN pre.ord :   \* only resting (acknowledged) orders are filled passively
+          (pre.ord[o].mid = mid /\ Has(post.ord, o) /\ ~(pre.ord[o].status \in MatchSt)) =>
+             Ck("C06", "OnlyRestingFilled", post.ord[o].m <= pre.ord[o].m, <<o, pre.ord[o].status>>)
+    /\ \A g \in MatchGroups(pre, mid, e.a.iso) :
+        \A sk \in {pre.ord[o].selk : o \in g} :
+          LET Rs == {o \in g : pre.ord[o].selk = sk /\ plain(o)}
+              d == delta(sk)
+              filled == {o \in Rs : fill(o) > 0}
+          IN /\ \A o \in Rs : Ck("C06", "AtOrThroughLimit",
+                                  fill(o) = 0 \/ eligvol2(o, d) > 0, <<o, fill(o)>>)
+             \* no overfill: the group never takes more than half the eligible traded volume
+             /\ Ck("C06", "NoOverfill",
+                   2 * SumOver(Rs, fill)
+                     <= SumOver({p \in DOMAIN d : \E o \in filled : Eligible(pre.ord[o], p)}, LAMBDA p : d[p]),
+                   <<sk, [o \in filled |-> fill(o)], d>>)
+             /\ \A o0 \in filled :     \* per threshold and side
+                   LET same == {o \in Rs : pre.ord[o].side = pre.ord[o0].side
+                                           /\ Eligible(pre.ord[o0], pre.ord[o].price)}   \* priced at least as well as o0
+                   IN Ck("C06", "NoOverfillThreshold",
+                         2 * SumOver({o \in same : TRUE}, fill) <= eligvol2(o0, d), <<sk, o0>>)
+             \* a lone resting order gets exactly the volume beyond its queue position
+             /\ (Cardinality({o \in g : pre.ord[o].selk = sk}) = 1 =>
+                   \A o \in Rs :
+                      LET want2 == eligvol2(o, d) - 2 * pre.ord[o].piq
+                      IN Ck("C06", "LoneExact",
+                            fill(o) = Min(Rem(pre.ord[o]), IF want2 > 0 THEN RoundDiv(want2, 2) ELSE 0),
+                            <<o, fill(o), "eligible2", eligvol2(o, d), "piq", pre.ord[o].piq, "rem", Rem(pre.ord[o])>>))
+             \* better priced orders of the same side are served first
+             /\ \A o1 \in filled : \A o2 \in Rs :
+                   (pre.ord[o2].side = pre.ord[o1].side /\ o2 # o1 /\
+                    (IF pre.ord[o1].side = "LAY" THEN pre.ord[o2].price > pre.ord[o1].price
+                     ELSE pre.ord[o2].price < pre.ord[o1].price)) =>
+                      Ck("C06", "BetterPriceFirst", Rem(post.ord[o2]) = 0, <<o1, o2>>)
+
+-----------------------------------------------------------------------------
+(* C09 *)
+P_C09(pre, e) ==
+    LET post == e.st IN
+    /\ (e.ev = "mw" =>
+         /\ \A i \in DOMAIN e.a.newly_removed :
+              LET sk == e.a.newly_removed[i][1]
+                  af == e.a.newly_removed[i][2]
+                  single == Len(e.a.newly_removed) = 1
+              IN /\ \A o \in DOMAIN pre.ord :
+                      (pre.ord[o].mid = e.a.mid /\ pre.ord[o].inbl /\ pre.ord[o].selk = sk /\ Has(post.ord, o)) =>
+                         Ck("C09", "VoidedInFull",
+                            post.ord[o].m = 0 /\ post.ord[o].frags = <<>> /\ Rem(post.ord[o]) = 0
+                              /\ post.ord[o].void = post.ord[o].size,
+                            <<o, e.a.mid, sk>>)
+                 /\ (single => \A o \in DOMAIN pre.ord :
+                      (pre.ord[o].mid = e.a.mid /\ pre.ord[o].inbl /\ pre.ord[o].selk # sk /\ Has(post.ord, o)
+                       /\ ~(pre.ord[o].type = "MARKET_ON_CLOSE" /\ pre.ord[o].side = "LAY")
+                       /\ Len(post.ord[o].frags) >= Len(pre.ord[o].frags)) =>
+                         \A j \in DOMAIN pre.ord[o].frags :
+                            Ck("C09", "ReducedOnce",
+                               IF af >= 250
+                               THEN ReducedPriceOk(post.ord[o].frags[j][2], pre.ord[o].frags[j][2], af)
+                               ELSE post.ord[o].frags[j][2] = pre.ord[o].frags[j][2],
+                               <<o, j, pre.ord[o].frags[j][2], post.ord[o].frags[j][2], af>>))
+         \* no reduction without a new removal in this market
+         /\ (e.a.newly_removed = <<>> =>
+               \A o \in DOMAIN pre.ord :
+                  (Has(post.ord, o) /\ Len(post.ord[o].frags) >= Len(pre.ord[o].frags)) =>
+                     Ck("C09", "NoSpuriousReduction",
+                        SubSeq(post.ord[o].frags, 1, Len(pre.ord[o].frags)) = pre.ord[o].frags \/ post.ord[o].void > pre.ord[o].void, o)))
+    \* whenever a strategy is called: every order on a removed runner is void and complete
+    /\ (e.ev = "cb" =>
+          \A o \in DOMAIN post.ord :
+             (post.ord[o].inbl /\ Has(post.mkt, post.ord[o].mid)
+              /\ post.ord[o].selk \in SeqToSet(post.mkt[post.ord[o].mid].removed)
+              \* an order placed after the removal is still awaiting its (failing) placement
+              /\ ~(post.ord[o].status = "PENDING" /\ post.ord[o].void = 0 /\ post.ord[o].m = 0)) =>
+                 Ck("C09", "RemovedRunnerOrdersComplete",
+                    post.ord[o].cplt /\ post.ord[o].m = 0 /\ Rem(post.ord[o]) = 0, <<o, post.ord[o].status, post.ord[o].type>>))
+
+-----------------------------------------------------------------------------
+(* C07, timestamps *)
+P_C07T(pre, e) ==
+    LET post == e.st IN
+    /\ (e.ev = "exec" =>
+          /\ Ck("C07", "ExecutedAgainstPrevBook",
+                Has(pre.mkt, e.a.mid) /\ e.a.book.pt = pre.mkt[e.a.mid].pt /\ e.a.book.pt <= pre.clock, <<e.a.book.pt, pre.clock>>)
+          /\ Ck("C07", "DelayCharged",
+                e.a.delay = ExpectedDelay(e.a.kind, e.a.betdelay, e.a.lat), <<e.a.kind, e.a.delay, e.a.betdelay>>))
+    /\ \A o \in DOMAIN post.ord :
+          LET a == post.ord[o] IN
+          /\ Ck("C07", "NoTimestampBeforePossible",
+                /\ (a.placed >= 0 => a.placed >= a.created)
+                /\ \A j \in DOMAIN a.frags : a.frags[j][1] < 0 \/ a.frags[j][1] >= a.created
+                /\ a.supd >= a.created /\ a.supd <= post.clock /\ a.created <= post.clock,
+                <<o, a.created, a.placed, a.supd, post.clock>>)
+          \* a pending order has no fills; an order whose request is in flight stays fillable
+          /\ Ck("C07", "PendingHasNoFills", a.status = "PENDING" => a.m = 0 /\ a.frags = <<>>, o)
+    /\ (e.ev = "cb" => \A i \in DOMAIN e.pkgs :
+          Ck("C07", "DelayCharged",
+             e.pkgs[i].delay = ExpectedDelay(e.pkgs[i].kind, e.pkgs[i].betdelay, e.lat)
+             /\ (Has(pre.mkt, e.pkgs[i].mid) => e.pkgs[i].betdelay = pre.mkt[e.pkgs[i].mid].betdelay),
+             <<e.pkgs[i].kind, e.pkgs[i].delay, e.pkgs[i].betdelay>>))
+    /\ (e.ev = "upd" => Ck("C07", "ClockIsPublishTime", post.clock = e.a.pt, <<post.clock, e.a.pt>>))
+
 -----------------------------------------------------------------------------
 StepOK(pre, e) ==
     /\ ("R" \in Props => (Conforms(pre, e) /\ (e.ev = "cb" => ReqVerdicts(pre, e.reqs, 1))))
+    /\ ("M" \in Props => /\ (e.ev = "exec" => PlaceConforms(pre, e))
+                         /\ (e.ev = "mw" => MwConforms(pre, e) /\ TradedConforms(e)))
+    /\ ("C05" \in Props => P_C05(pre, e))
+    /\ ("C06" \in Props => P_C06(pre, e))
+    /\ ("C09" \in Props => P_C09(pre, e))
+    /\ ("C07" \in Props => P_C07T(pre, e))
     /\ ("C03" \in Props => P_C03(pre, e))
     /\ ("C04" \in Props => P_C04(pre, e))
     /\ ("C10" \in Props => P_C10(pre, e))
